@@ -447,6 +447,8 @@ class SpecMixin:
                 elif b[0] == 'call' and b[1] == ('id', 'seqv'):
                     self.use_seq = True
                     q = fresh('q!' + b[2][0][1], ByteSeq); binds[b[2][0][1]] = SeqV(q)
+                elif b[0] == 'call' and b[1] == ('id', 'floatv'):
+                    q = fresh('q!' + b[2][0][1], F64); binds[b[2][0][1]] = q
                 else:
                     raise Unsupported('binder %r' % (b,))
                 vs.append(q)
@@ -690,6 +692,7 @@ class SpecMixin:
         t = t.strip()
         if t in ('int', 'byte', 'rune', 'uint8', 'uint16', 'uint32', 'uint64', 'int32', 'int64', 'uint'): return [I]
         if t == 'bool': return [B]
+        if t == 'float64': return [F64]
         if t in ('[]byte', 'string', '[]int', '[]rune', '[]int32'): return [ArrII, I, I]
         if t == 'seq': return [ByteSeq]
         if t == 'ref': return [I]
